@@ -193,10 +193,29 @@ PLONG = [0.3048006, 0.02540005, 1.000005, 12.34567, 0.1234567, 45.00001, 1234.56
 
 
 def pval(r, lo, hi):
-    """a parameter value: mostly short, sometimes one that needs seven significant digits"""
-    if r.random() < 0.2:
-        return r.choice(PLONG)
-    return q(r, lo, hi)
+    """a parameter value: mostly short, sometimes one that needs seven significant digits, sometimes a
+    zero (falsy but not None: 0.0 or the int 0), sometimes given as a numpy scalar (picked out of an array)"""
+    k = r.random()
+    if k < 0.2:
+        v = r.choice(PLONG)
+    elif k < 0.35:
+        return r.choice([0.0, 0, 0.0])
+    else:
+        v = q(r, lo, hi)
+    return npform(r, v)
+
+
+def npform(r, v):
+    """the same number in another Python form: float, or a numpy scalar taken from an array"""
+    import numpy
+    k = r.random()
+    if k < 0.75:
+        return v
+    if k < 0.87:
+        return numpy.array([v], dtype=numpy.float64)[0]
+    if k < 0.95:
+        return numpy.array([v], dtype=numpy.float32)[0]
+    return numpy.array([int(v)], dtype=numpy.int32)[0] if float(v) == int(v) else numpy.array([v], dtype=numpy.float64)[0]
 
 
 def color(r, n=None):
@@ -252,7 +271,7 @@ def new_effect(doc, st, r):
             kw[prop] = color(r, 4)
     for prop in ('shininess', 'reflectivity', 'transparency', 'index_of_refraction'):
         if r.random() < 0.4:
-            kw[prop] = pval(r, 0, 160)
+            kw[prop] = float(pval(r, 0, 160))      # documented type: a Python float
     if r.random() < 0.3:
         kw['opaque_mode'] = material.OPAQUE_MODE.RGB_ZERO
     if params and r.random() < 0.6:
@@ -278,12 +297,16 @@ def new_transform(r, kind=None):
     from collada import scene
     kind = kind or r.choice(['translate', 'rotate', 'scale', 'matrix', 'lookat'])
     if kind == 'translate':
-        return scene.TranslateTransform(pval(r, -48, 48), q(r), pval(r, -48, 48))
+        return scene.TranslateTransform(pval(r, -48, 48), npform(r, q(r)), pval(r, -48, 48))
     if kind == 'rotate':
         ax = r.choice([(1.0, 0.0, 0.0), (0.0, 1.0, 0.0), (0.0, 0.0, 1.0)])
-        return scene.RotateTransform(ax[0], ax[1], ax[2], float(r.choice([0, 30, 45, 90, 180, -90, 22.5])))
+        if r.random() < 0.25:
+            # axis and angle picked out of one array
+            aa = numpy.array(list(ax) + [float(r.choice([0, 30, 45, 90, 180, -90, 22.5]))], dtype=r.choice([numpy.float32, numpy.float64]))
+            return scene.RotateTransform(aa[0], aa[1], aa[2], aa[3])
+        return scene.RotateTransform(ax[0], ax[1], ax[2], npform(r, float(r.choice([0, 30, 45, 90, 180, -90, 22.5]))))
     if kind == 'scale':
-        return scene.ScaleTransform(q(r, 1, 64), q(r, 1, 64), q(r, 1, 64))
+        return scene.ScaleTransform(npform(r, q(r, 1, 64)), npform(r, q(r, 1, 64)), npform(r, q(r, 1, 64)))
     if kind == 'matrix':
         m = [q(r) for _ in range(12)] + [0.0, 0.0, 0.0, 1.0]
         return scene.MatrixTransform(numpy.array(m, dtype=numpy.float32))
@@ -436,6 +459,27 @@ def relocate_optional(root, r):
             for i, np_ in enumerate(nps[cut:]):
                 prof.remove(np_)
                 tec.insert(i, np_)
+    # images declared locally, one after the other, at the front of an effect's profile (valid COLLADA;
+    # the loader adds them to the document's images)
+    libimg = root.find(T('library_images'))
+    profiles = [e.find(T('profile_COMMON')) for e in root.iter(T('effect'))]
+    profiles = [p_ for p_ in profiles if p_ is not None]
+    if libimg is not None and profiles and r.random() < 0.6:
+        imgs = list(libimg)
+        r.shuffle(imgs)
+        used = {}
+        for p_ in profiles:
+            used[id(p_)] = set((x.text or '').strip() for x in p_.iter(T('init_from')))
+        for prof in r.sample(profiles, min(len(profiles), r.choice([1, 1, 2]))):
+            # an image local to one effect is not visible to the others
+            free = [im for im in imgs if not any(im.get('id') in used[id(o)] for o in profiles if o is not prof)]
+            take = free[:r.choice([1, 2, 2, 3])]
+            imgs = [im for im in imgs if im not in take]
+            for i, im in enumerate(take):
+                libimg.remove(im)
+                prof.insert(i, im)
+        if len(libimg) == 0:
+            root.remove(libimg)
     for geom in root.iter(T('geometry')):
         mesh = geom.find(T('mesh'))
         for ex in [x for x in geom.findall(T('extra')) if x.find('.//' + T('double_sided')) is not None]:
@@ -1081,7 +1125,7 @@ def apply_op(doc, st, op, out):
                 if not isinstance(getattr(e, prop), material.Map) and r.random() < 0.6:
                     setattr(e, prop, color(r, 4))
             if r.random() < 0.5 and not isinstance(e.shininess, material.Map):
-                e.shininess = pval(r, 0, 160)
+                e.shininess = float(pval(r, 0, 160))
             if r.random() < 0.3:
                 e.shadingtype = r.choice(['phong', 'lambert', 'blinn', 'constant'])
             e.double_sided = not e.double_sided
@@ -1277,7 +1321,8 @@ def site_observations(doc, before):
         o = [kind, [u(x) for x in old], [u(id(x)) for x in want], [u(id(x)) for x in parent]]
         if kind == 'profile':
             # which identities are <newparam> elements, and the identity of <technique>
-            o.append([u(x) for x in old if _TAGS.get(x) == T('newparam')] + [u(id(x)) for x in want])
+            # (<image> elements local to the profile are taken out as well: they are written in library_images)
+            o.append([u(x) for x in old if _TAGS.get(x) in (T('newparam'), T('image'))] + [u(id(x)) for x in want])
             o.append(u(id(site[3])))
         obs.append(o)
     return obs
